@@ -82,6 +82,7 @@ Definition sval_raw (v : value) : sval :=
   | VBytes b => SVBytes b
   | VF32 b => SVF32 b
   | VF64 b => SVF64 b
+  | VDy n e => let '(n', e') := dyad_norm n e in SVDyad n' e'
   end.
 
 Definition scale_divides (s : scale) : option Z :=
@@ -207,7 +208,7 @@ Record esample := mkESample
 (** values handed to struct.pack for a numerical row *)
 Definition num_value (sc : option Z) (v : evalue) : res value :=
   match sc, v with
-  | None, EVInt z => Ok (VInt z)
+  | None, EVInt z => Ok (VInt z)                  (* on an f/d row struct.pack converts it: float(z) *)
   | None, EVF32 b => Ok (VF32 b)
   | None, EVF64 b => Ok (VF64 b)
   | None, EVBytes b => Ok (VBytes b)
